@@ -360,6 +360,11 @@ def trace_cfg(ncalls):
             '  Deviations = {}\n' % ', '.join(str(i) for i in range(1, ncalls + 1)))
 
 
+def core_freeze(k):
+    from .tlaval import Rec
+    return Rec(k) if not isinstance(k, Rec) else k
+
+
 INVS = ['AtMostOnce', 'ExactlyOnceWhenDone', 'RightOutcome', 'NoCross', 'NoLeak', 'LostSilent']
 
 
@@ -389,6 +394,43 @@ def run(tier, seed):
         p4 = list(core.random_walks(g4, 40000, 12, rng))
         replay(chk, g4, p4, [1, 2, 3, 4], 'A4-walks')
         replay(chk, g4, list(core.edge_cover_paths(g4)), [1, 2, 3, 4], 'A4-edges')
+    # 2b. a peer that answers at once: the reply is handed to the connection from inside transport.write (an in-process
+    #     or loopback transport does that), i.e. before callRemote has returned.  The model's Issue ; Return, as one step
+    from .framing import walk
+    resb, gb = tlc.dump_graph('MC_Calls', 'MC_Calls_B2.cfg')
+    nsync = 0
+    for sh in SHAPES:
+        for k in ({'dl': False, 'ret': 'nocheck', 'nr': False}, {'dl': True, 'ret': 'nocheck', 'nr': False},
+                  {'dl': True, 'ret': 's', 'nr': False}):
+            acts = [('Issue', (1, core_freeze(k))), ('Return', (1, sh))]
+            try:
+                ids = walk(gb, acts)
+            except KeyError:
+                continue
+            drv = CallsDriver([1, 2])
+            orig_write = drv.t.write
+
+            def write(data, drv=drv, sh=sh, orig_write=orig_write):
+                orig_write(data)
+                for m in fakes.parse_all(data):
+                    if m._messageType == 1 and m.member == 'M1':
+                        sig, body = reply_payload(1, sh)
+                        drv.conn.dataReceived(message.MethodReturnMessage(m.serial, body=body, signature=sig,
+                                                                          destination=':1.7').rawMessage)
+            drv.t.write = write
+            try:
+                drv.do_Issue(1, k)
+                got = drv.project()
+                dif = core.diff_states(gb.nodes[ids[-1]], got)
+            except Exception:
+                dif = [('exception', 'none', core.traceback_str()[-300:])]
+            nsync += 1
+            if dif:
+                chk.violation('a reply delivered from inside transport.write (shape %s, call %r): impl differs from model in %s' % (
+                    sh, k, ','.join(sorted(set(d[0] for d in dif)))), dict(kind='spec->code sync reply', module='c08', shape=sh, cfg=k,
+                                                                           diff=[(a, repr(b), repr(c)) for a, b, c in dif]))
+    chk.traces += nsync
+    chk.notes['synchronous_replies'] = nsync
     # 3. code -> spec: random executions with the full alphabet, larger than the model constants
     ntr = 1500 if thorough else 250
     traces = []
